@@ -9,7 +9,16 @@
      defects <list>                   (np.where(ftf == -1) after step 2 = the argument of the pairing)
      pairing_ok 0/1 ; paths_ok <list 0/1>
      res OK <bonds list> | LEFTOVER | MISMATCH | PATHERR
-   followed by "end". *)
+   followed by "end".
+   e2e <conv> <plaqs as above> <ep as above> <nT> {target hex}* <nG> {guess hex}* <nCaps> { <a> <b> }* <nH> { <a> <b> <h(a,b) hex> }*
+     the solver with NOTHING fed in but the greedy choices (replayed from the captured pairs) and the cost values: the paths are
+     computed by the A* model (fsl_path: adjacency lists by the model of graph_utils.adjacent_plaquettes, early stopping, budget
+     n_edges).  Output:
+       conn 0/1                          (fs_connected_b ep F)
+       apath<i> P <margin hex|N> <nodes list> <edges list> | E | C      for the i-th captured pair (as_path on the same arguments)
+       res OK <bonds list> | LEFTOVER | MISMATCH | PATHERR              (fs_solve_astar)
+       boundary N | <e0> <q0>            (fs_find_boundary ep)
+       complete N | <bonds list>         (fs_complete_open on the model's result, when res is OK and a boundary edge exists) *)
 open Model
 open Hexio
 
@@ -69,6 +78,53 @@ let cmd_greedy c =
    | FG_OutOfFuel -> out "greedy" "FUEL");
   out "greedy_ok" (s_bool (fs_pairing_ok defects (greedy_pairing pick nearest defects)))
 
+let cmd_e2e c =
+  let conv = next_int c in
+  let plaqs = next_list c (fun c -> next_list c (fun c -> let e = next_nat c in let d = next_z c in (e, d))) in
+  let ep = next_list c (fun c -> let a = next_onat c in let b = next_onat c in (a, b)) in
+  let target = next_list c next_z in
+  let guess = next_list c next_z in
+  let caps = next_list c next_natpair in
+  let nh = next_int c in
+  let tbl = Hashtbl.create (2 * nh + 1) in
+  for _ = 1 to nh do
+    let a = next_int c in let b = next_int c in let v = next_z c in
+    Hashtbl.replace tbl (a, b) v
+  done;
+  let hf (a : nat) (b : nat) =
+    let k = (int_of_nat a, int_of_nat b) in
+    match Hashtbl.find_opt tbl k with
+    | Some v -> v
+    | None -> failwith (Printf.sprintf "h(%d,%d) not supplied" (fst k) (snd k)) in
+  let one = z_of_hex "1" in
+  let ps = List.map (fun p -> plaq_of_arrays [] (List.map fst p) (List.map (fun ed -> snd ed = one) p)) plaqs in
+  let nE = nat_of_int (List.length ep) in
+  out "conn" (s_bool (fs_connected_b ep (nat_of_int (List.length ps))));
+  List.iteri (fun i (a, b) ->
+      let key = "apath" ^ string_of_int i in
+      match as_path (fsl_adj ps ep) hf a b true nE with
+      | AS_Path (ns, es, mg) ->
+        out key (sp [ "P"; (match mg with None -> "N" | Some m -> s_z m); s_list s_nat ns; s_list s_nat es ])
+      | AS_PathFindingError _ -> out key "E"
+      | AS_Crash -> out key "C") caps;
+  let pick = fs_replay_pick caps and nearest = fs_replay_nearest caps in
+  let r = fs_solve_astar (conv = 1) ps ep hf pick nearest target guess in
+  (match r with
+   | FS_Ok b -> out "res" ("OK " ^ s_list s_z b)
+   | FS_LeftoverError -> out "res" "LEFTOVER"
+   | FS_MismatchError -> out "res" "MISMATCH"
+   | FS_PathError -> out "res" "PATHERR");
+  (match fs_find_boundary ep with
+   | None -> out "boundary" "N"
+   | Some (e0, q0) -> out "boundary" (s_nat e0 ^ " " ^ s_nat q0));
+  (match r with
+   | FS_Ok b ->
+     let flux = if conv = 0 then fs_fluxes_ujk (fsl_plaqs ps) else fs_fluxes_bonds (fsl_plaqs ps) in
+     (match fs_complete_open flux ep (fsl_path ps ep hf nE) target b with
+      | None -> out "complete" "N"
+      | Some u -> out "complete" (s_list s_z u))
+   | _ -> out "complete" "N")
+
 let () =
   iter_lines (fun line ->
       let c = cursor_of_line line in
@@ -79,6 +135,7 @@ let () =
           | "ansatz" -> cmd_ansatz c
           | "wf" -> cmd_wf c
           | "greedy" -> cmd_greedy c
+          | "e2e" -> cmd_e2e c
           | _ -> out "error" ("unknown command " ^ cmd))
        with Failure m -> out "error" m);
       print_endline "end")
